@@ -33,17 +33,17 @@
 struct c16_val {
 	u8 b[C16_VMAX];
 	unsigned len;              /* concrete */
-	unsigned level;            /* symbolic; 256 = out of range */
+	unsigned level;            /* symbolic; > 255 = out of range */
 };
 
 static unsigned c16_alg_len(int alg) {
 	return alg == KSI_HASHALG_SHA1 ? 20 : alg == KSI_HASHALG_SHA2_256 ? 32 : alg == KSI_HASHALG_RIPEMD160 ? 20 : alg == KSI_HASHALG_SHA2_384 ? 48 : 64;
 }
 
-/* level of a join; everything above 255 is reported as 256 = out of range */
+/* level of a join.  NOT saturated: a would-be root level may exceed 256 (two joins above a level-255 subtree),
+ * and a configured limit above 255 must be compared with the true value; "> 255" means out of range for a node. */
 static unsigned c16_join_level(unsigned l, unsigned r) {
-	unsigned lv = (l > r ? l : r) + 1;
-	return lv > 255 ? 256 : lv;
+	return (l > r ? l : r) + 1;
 }
 
 /* ---------------- levels only ---------------- */
@@ -51,7 +51,7 @@ struct c16_lf { unsigned level[C16_SLOTS]; int used[C16_SLOTS]; };
 
 static void c16_lf_init(struct c16_lf *f) { for (unsigned i = 0; i < C16_SLOTS; i++) { f->used[i] = 0; f->level[i] = 0; } }
 
-/* add one leaf (binary-counter carry).  Returns the highest level produced by the carries (256 = out of range). */
+/* add one leaf (binary-counter carry).  Returns the highest level produced by the carries (> 255 = out of range). */
 static unsigned c16_lf_add(struct c16_lf *f, unsigned leaf_level) {
 	unsigned carry = leaf_level, hi = leaf_level;
 	int placed = 0;
